@@ -455,6 +455,16 @@ func vfC14Scenarios(thorough bool) []*vfGWScenario {
 			Validators: []vfValCfg{{Name: "V", Topic: "t", Inline: true, Gated: true, Verdict: "A"}}},
 			Alphabet: []string{"pub:a:m1", "pub:a:m2", "pub:h:m2", "vrel:V:m1:A", "vrel:V:m2:A", "lpub:t:p1"}, Msgs: m2, Depth: d + 1, Leaf: []string{"cancel"}})
 	}
+	// a mesh peer that has stopped reading: its queue fills up with forwarded messages and with the urgent IDONTWANTs
+	// the loop sends before validation; whatever the loop does with an RPC that no longer fits, it must not wait for
+	// room that only the loop itself could make
+	{
+		peers := []vfPeerCfg{{Name: "a", Proto: "v12", IP: "10.0.0.1"}, {Name: "h", Proto: "v12", IP: "10.0.0.2"}}
+		m3 := map[string]vfMsgSpec{"m1": {Topic: "t", Author: "x", Seq: 1, Size: 32}, "m2": {Topic: "t", Author: "x", Seq: 2, Size: 32}, "m3": {Topic: "t", Author: "x", Seq: 3, Size: 32}, "m4": {Topic: "t", Author: "x", Seq: 4, Size: 32}}
+		out = append(out, &vfGWScenario{Name: "gossip-stalled-mesh-peer", Cfg: vfGWCfg{Router: "gossip", Peers: peers, Topics: []string{"t"}, Params: "d2", Scoring: true, QueueSize: 2,
+			Prefix: []string{"conn:a", "sub:a:t", "conn:h", "sub:h:t", "join:t", "graft:a:t", "gate:a"}, Extra: map[string]string{"leak_is_violation": "1", "no_ops": "1"}},
+			Alphabet: []string{"pub:h:m1", "pub:h:m2", "pub:h:m3", "pub:h:m4", "lpub:t:p1", "hb", "ungate:a"}, Msgs: m3, Depth: d + 1, Leaf: []string{"cancel"}})
+	}
 	// validations in flight with several asynchronous validators (default + topic) whose verdicts arrive in every
 	// order, among them a Reject that ends the collection early while the other validator is still running
 	for _, verdicts := range [][2]string{{"A", "R"}, {"R", "A"}, {"R", "R"}, {"I", "R"}} {
